@@ -102,3 +102,80 @@ Proof.
     destruct (nget (aconns (kill a (Conn i))) i); cbn [hd]; [|exact H].
     apply (Inv_holders c _ (kill a (Conn i))); [reflexivity | exact H].
 Qed.
+
+(* ---- histories ------------------------------------------------------------------------------ *)
+Fixpoint run_a (c : config) (st : state) (a : astate) (ops : list op) : astate :=
+  match ops with
+  | [] => a
+  | o :: r => run_a c (fst (step c st o)) (anext c st a o) r
+  end.
+
+Fixpoint wf_hist (c : config) (st : state) (a : astate) (ops : list op) : Prop :=
+  match ops with
+  | [] => True
+  | o :: r => wf_op st a o /\ wf_hist c (fst (step c st o)) (anext c st a o) r
+  end.
+
+Theorem history_inv_from : forall c ops st a,
+  cfg_ok c -> Inv c (scopes st) a -> wf_hist c st a ops ->
+  Inv c (scopes (run c st ops)) (run_a c st a ops).
+Proof.
+  intros c ops. induction ops as [|o r IH]; intros st a LO I Wf; [exact I|].
+  cbn [run run_a]. destruct Wf as [W1 W2]. apply IH; [exact LO | apply step_inv; assumption | exact W2].
+Qed.
+
+Theorem history_inv : forall c ops,
+  cfg_ok c -> wf_hist c (init_state c) astate0 ops ->
+  Inv c (scopes (run c (init_state c) ops)) (run_a c (init_state c) astate0 ops).
+Proof. intros c ops LO Wf. apply history_inv_from; [exact LO | apply init_inv, LO | exact Wf]. Qed.
+
+(* usage == sum over the holders charged to the scope, for every scope *)
+Corollary usage_is_sum_l : forall c ops t,
+  cfg_ok c -> wf_hist c (init_state c) astate0 ops ->
+  use_of (scopes (run c (init_state c) ops)) t = usage_A (run_a c (init_state c) astate0 ops) t.
+Proof. intros c ops t LO Wf. apply (I_num _ _ _ (history_inv c ops LO Wf)). Qed.
+
+(* never negative, never above the limit; the limit is the configured one *)
+Corollary within_limits_l : forall c ops t sc,
+  cfg_ok c -> wf_hist c (init_state c) astate0 ops ->
+  get (scopes (run c (init_state c) ops)) t = Some sc ->
+  nonneg (s_use sc) /\ fits (s_lim sc) (s_use sc) /\
+  (is_handle t = false -> s_lim sc = limit_of c t).
+Proof.
+  intros c ops t sc LO Wf G. pose proof (history_inv c ops LO Wf) as I.
+  destruct (I_good _ _ _ I t sc G) as (_ & N & F). split; [exact N|]. split; [exact F|].
+  intros Hh. apply (I_static _ _ _ I t sc G Hh).
+Qed.
+
+(* a refused operation changes no counter of any scope *)
+Corollary refusal_is_noop_l : forall c st a o t,
+  cfg_ok c -> Inv c (scopes st) a -> wf_op st a o ->
+  snd (step c st o) <> 0 ->
+  match o with ORelease _ _ | ODone _ => False | _ => True end ->
+  use_of (scopes (fst (step c st o))) t = use_of (scopes st) t.
+Proof.
+  intros c st a o t LO I Wf Hc Ho. pose proof (step_inv c st a o LO I Wf) as I'.
+  rewrite (I_num _ _ _ I' t), (I_num _ _ _ I t). f_equal. unfold anext.
+  destruct (step c st o) as [st' cls]. cbn [snd] in Hc.
+  assert (C : (cls =? 0) = false) by (apply Z.eqb_neq, Hc).
+  destruct o; cbn [astep wf_op] in *; try contradiction; rewrite C; reflexivity.
+Qed.
+
+(* when nothing is held any more, every scope reads zero *)
+Lemma sumc_zero : forall R H x, (forall y h, In (y, h) H -> h_own h = stat0) -> sumc R H x = stat0.
+Proof.
+  induction H as [|[y h] r IH]; intros x Z; [apply sumc_nil|]. rewrite sumc_cons, (Z y h (or_introl eq_refl)).
+  rewrite stat_scale_stat0, stat_add_0_l. apply IH. intros z hz Hz. apply (Z z hz). right. exact Hz.
+Qed.
+
+Corollary release_all_zero_l : forall c ops t,
+  cfg_ok c -> wf_hist c (init_state c) astate0 ops ->
+  (forall y h, In (y, h) (holders (run_a c (init_state c) astate0 ops)) -> h_dead h = true \/ h_own h = stat0) ->
+  use_of (scopes (run c (init_state c) ops)) t = stat0.
+Proof.
+  intros c ops t LO Wf Z. pose proof (history_inv c ops LO Wf) as I.
+  rewrite (I_num _ _ _ I t), usage_A_sumc. apply sumc_zero. intros y h Hi.
+  destruct (Z y h Hi) as [D|E]; [|exact E].
+  apply (W_own _ (I_wf _ _ _ I) y h); [|exact D].
+  apply in_hget_k; [apply (W_keys _ (I_wf _ _ _ I)) | exact Hi].
+Qed.
